@@ -31,7 +31,17 @@ enum Cfg {
 	/// batches unlimited, but max_response_body_size this small: the statement lets the response-size limit replace the
 	/// array by ONE error object (-32011) or an entry's reply by -32008 - nothing else changes (no entry may go missing)
 	SmallResponse(u32),
+	/// (directed family only) batches unlimited; an RPC middleware refuses calls to `DENIED` methods: a single call is
+	/// answered by the middleware itself, inside a batch the entry is replaced by `Err(BatchEntryErr::new(id, error))` -
+	/// the pattern of the library's own rate-limiting example
+	Deny,
+	/// (directed family only) batches unlimited; `max_subscriptions_per_connection(0)`: every subscribe call is refused
+	/// by the library with -32006 before any handler runs
+	NoSubs,
 }
+const DENIED: [&str; 3] = ["echo_async", "seq3", "fail"];
+const DENY_CODE: i64 = -32077;
+const TOO_MANY_SUBSCRIPTIONS: i64 = -32006;
 const CFGS: [Cfg; 9] =
 	[Cfg::Disabled, Cfg::Limit(0), Cfg::Limit(1), Cfg::Limit(2), Cfg::Limit(3), Cfg::Limit(4), Cfg::Unlimited, Cfg::SmallResponse(200), Cfg::SmallResponse(420)];
 
@@ -40,7 +50,7 @@ impl Cfg {
 		match self {
 			Cfg::Disabled => BatchRequestConfig::Disabled,
 			Cfg::Limit(n) => BatchRequestConfig::Limit(n),
-			Cfg::Unlimited | Cfg::SmallResponse(_) => BatchRequestConfig::Unlimited,
+			Cfg::Unlimited | Cfg::SmallResponse(_) | Cfg::Deny | Cfg::NoSubs => BatchRequestConfig::Unlimited,
 		}
 	}
 }
@@ -49,6 +59,9 @@ impl Cfg {
 enum EntryWant {
 	Call(CallWant, &'static str),
 	Invalid { id: Value, class: &'static str },
+	/// a call that is refused before its handler (by the deny middleware / the subscription limit): this error code under
+	/// the call's id, no invocation
+	Refused { id: Value, code: i64, scalar: bool, class: &'static str },
 	Nothing,
 }
 
@@ -57,6 +70,7 @@ impl EntryWant {
 		match self {
 			EntryWant::Call(_, c) => c,
 			EntryWant::Invalid { class, .. } => class,
+			EntryWant::Refused { class, .. } => class,
 			EntryWant::Nothing => "notification",
 		}
 	}
@@ -145,6 +159,15 @@ fn want_for(bytes: &[u8], cfg: Cfg, http: bool) -> (BatchWant, Vec<&'static str>
 			}
 		}
 	}
+	for w in wants.iter_mut() {
+		let EntryWant::Call(c, class) = w else { continue };
+		let scalar = matches!(c.params_kind, Some(Kind::Number) | Some(Kind::String) | Some(Kind::Bool));
+		if cfg == Cfg::Deny && DENIED.contains(&c.method.as_str()) {
+			*w = EntryWant::Refused { id: c.id.clone(), code: DENY_CODE, scalar, class };
+		} else if cfg == Cfg::NoSubs && !http && *class == "subscribe-call" {
+			*w = EntryWant::Refused { id: c.id.clone(), code: TOO_MANY_SUBSCRIPTIONS, scalar, class };
+		}
+	}
 	if wants.iter().all(|w| matches!(w, EntryWant::Nothing)) {
 		return (BatchWant::NoReply, classes);
 	}
@@ -157,6 +180,9 @@ fn match_replies(wants: &[&EntryWant], replies: &[Reply]) -> Result<(), (String,
 		match w {
 			EntryWant::Call(c, _) => c.check(r).is_ok(),
 			EntryWant::Invalid { id, .. } => r.error_code == Some(classify::INVALID_REQUEST) && r.id == *id,
+			EntryWant::Refused { id, code, scalar, .. } => {
+				r.id == *id && (r.error_code == Some(*code) || (*scalar && matches!(r.error_code, Some(classify::INVALID_PARAMS) | Some(classify::INVALID_REQUEST))))
+			}
 			EntryWant::Nothing => false,
 		}
 	}
@@ -213,6 +239,18 @@ fn feature(classes: &[&'static str], transport: &str) -> String {
 		c.sort();
 		c.dedup();
 		c.join("+")
+	}
+}
+
+/// Which write put a subscribe call's response outside the array: `accept()` (a result; the open finding), `reject()`
+/// (the handler's own error code), or something else (named by its code).
+fn outside_kind(which: &str, r: &Reply) -> String {
+	if which != "subscribe-call" || r.result_raw.is_some() {
+		which.to_string()
+	} else if r.error_code == Some(handlers::REJECT_CODE as i64) {
+		format!("{which}:rejected-by-handler")
+	} else {
+		format!("{which}:error{}", r.error_code.unwrap_or(0))
 	}
 }
 
@@ -299,7 +337,7 @@ fn judge(bytes: &[u8], cfg: Cfg, transport: &str, obs: &Obs) -> Vec<Violation> {
 					// (a subscribe entry executed before the array was given up still writes its own frame: the open finding)
 					for r in singles.iter().filter(|r| r.error_code != Some(-32011)) {
 						let is_sub = wants.iter().any(|w| matches!(w, EntryWant::Call(c, class) if c.id == r.id && *class == "subscribe-call"));
-						v("reply-outside-array", &format!("entry={}", if is_sub { "subscribe-call" } else { "unattributed" }), format!("response object delivered outside the array: {r:?}"));
+						v("reply-outside-array", &format!("entry={}", if is_sub { outside_kind("subscribe-call", r) } else { "unattributed".into() }), format!("response object delivered outside the array: {r:?}"));
 					}
 					return out;
 				}
@@ -338,12 +376,13 @@ fn judge(bytes: &[u8], cfg: Cfg, transport: &str, obs: &Obs) -> Vec<Violation> {
 					.iter()
 					.filter_map(|w| match w {
 						EntryWant::Call(c, class) if c.id == r.id => Some(*class),
+						EntryWant::Refused { id, class, .. } if *id == r.id => Some(*class),
 						_ => None,
 					})
 					.collect();
 				cands.sort_by_key(|c| if *c == "subscribe-call" { 0 } else { 1 });
 				let which = cands.first().copied().unwrap_or("unattributed");
-				v("reply-outside-array", &format!("entry={which}"), format!("response object delivered outside the array: {r:?}"));
+				v("reply-outside-array", &format!("entry={}", outside_kind(which, r)), format!("response object delivered outside the array: {r:?}"));
 			}
 			if arrays.len() != 1 {
 				v("not-one-array", &feat, format!("{} array frames", arrays.len()));
@@ -723,6 +762,178 @@ fn run_job(job_id: u64, batches: Vec<Vec<u8>>, seed: u64) -> (Evidence, Vec<Viol
 	(ev, violations)
 }
 
+// -------------------------------------------------------------------------------------------------------------
+// Directed families: configurations that cannot be expressed as a plain `ServerConfig` of the shared in-memory server.
+
+/// RPC middleware that refuses calls to the `DENIED` methods, the way the library's rate-limiting example does.
+#[derive(Clone)]
+struct Deny<S> {
+	inner: S,
+}
+
+fn deny_error() -> jsonrpsee_types::ErrorObjectOwned {
+	jsonrpsee_types::ErrorObject::owned(DENY_CODE as i32, "Method refused", Some("admin only"))
+}
+
+impl<S> jsonrpsee_core::middleware::RpcServiceT for Deny<S>
+where
+	S: jsonrpsee_core::middleware::RpcServiceT<MethodResponse = jsonrpsee_server::MethodResponse> + Send + Sync + Clone + 'static,
+{
+	type MethodResponse = jsonrpsee_server::MethodResponse;
+	type NotificationResponse = S::NotificationResponse;
+	type BatchResponse = S::BatchResponse;
+
+	fn call<'a>(&self, req: jsonrpsee_types::Request<'a>) -> impl std::future::Future<Output = Self::MethodResponse> + Send + 'a {
+		let inner = self.inner.clone();
+		async move {
+			if DENIED.contains(&req.method_name()) {
+				jsonrpsee_server::MethodResponse::error(req.id.clone().into_owned(), deny_error())
+			} else {
+				inner.call(req).await
+			}
+		}
+	}
+
+	fn batch<'a>(&self, mut b: jsonrpsee_core::middleware::Batch<'a>) -> impl std::future::Future<Output = Self::BatchResponse> + Send + 'a {
+		for entry in b.iter_mut() {
+			let id = match entry {
+				Ok(jsonrpsee_core::middleware::BatchEntry::Call(req)) if DENIED.contains(&req.method_name()) => req.id.clone(),
+				_ => continue,
+			};
+			*entry = Err(jsonrpsee_core::middleware::BatchEntryErr::new(id, deny_error()));
+		}
+		self.inner.batch(b)
+	}
+
+	fn notification<'a>(&self, n: jsonrpsee_core::middleware::Notification<'a>) -> impl std::future::Future<Output = Self::NotificationResponse> + Send + 'a {
+		self.inner.notification(n)
+	}
+}
+
+async fn http_obs<S, RB>(svc: &mut S, log: &Log, bytes: &[u8]) -> (Obs, Vec<u8>)
+where
+	S: tower::Service<http::Request<http_body_util::Full<bytes::Bytes>>, Response = http::Response<RB>>,
+	S::Error: std::fmt::Debug,
+	RB: http_body::Body<Data = bytes::Bytes>,
+	RB::Error: std::fmt::Debug,
+{
+	let _ = log.take();
+	let req = http::Request::builder()
+		.method("POST")
+		.uri("http://localhost/")
+		.header("host", "localhost")
+		.header("content-type", "application/json")
+		.header("content-length", bytes.len())
+		.body(http_body_util::Full::new(bytes::Bytes::from(bytes.to_vec())))
+		.expect("request");
+	let rep = jrv::memsrv::http_call(svc, req).await;
+	let inv = log.take();
+	let body_trim = rep.body.iter().position(|b| !b.is_ascii_whitespace()).map(|s| &rep.body[s..]).unwrap_or(&[]);
+	let frames = if body_trim.is_empty() || body_trim == b"null" { vec![] } else { vec![rep.body.clone()] };
+	(Obs { frames, invocations: inv, sentinel_ok: true, conn_dead: false, http_status: Some(rep.status) }, rep.body)
+}
+
+/// Batches under the deny middleware (HTTP and WebSocket) and under a subscription limit of zero (WebSocket), judged by the
+/// same oracle as every other configuration; refused entries are also sent alone and must get the same response object.
+fn directed_cfg_family(seed: u64, n: usize, max_len: usize) -> (Evidence, Vec<Violation>) {
+	let mut ev = Evidence::new("");
+	let mut violations = Vec::new();
+	let batches = random_batches(seed ^ 0xd3e7, n, max_len);
+	block_on_virtual(async {
+		// deny middleware
+		let log = Log::default();
+		let builder = jsonrpsee_server::Server::builder()
+			.set_config(ServerConfig::builder().max_connections(100_000).set_batch_request_config(BatchRequestConfig::Unlimited).build())
+			.set_rpc_middleware(jsonrpsee_server::middleware::rpc::RpcServiceBuilder::new().layer_fn(|service| Deny { inner: service }))
+			.to_service_builder();
+		let (stop_handle, _server_handle) = jsonrpsee_server::stop_channel();
+		let (nosubs, nosubs_log) = {
+			let log = Log::default();
+			let c = ServerConfig::builder().max_connections(100_000).set_batch_request_config(BatchRequestConfig::Unlimited).max_subscriptions_per_connection(0);
+			(MemServer::new(c.build(), handlers::echo_module(log.clone())), log)
+		};
+		for (bi, bytes) in batches.iter().enumerate() {
+			let (want, classes) = want_for(bytes, Cfg::Deny, true);
+			let has_refused = matches!(&want, BatchWant::Array(w) if w.iter().any(|w| matches!(w, EntryWant::Refused { .. })));
+			if has_refused || bi % 4 == 0 {
+				let mut svc = builder.clone().build(handlers::echo_module(log.clone()), stop_handle.clone());
+				let (h, _) = http_obs(&mut svc, &log, bytes).await;
+				let mut vs = judge(bytes, Cfg::Deny, "http", &h);
+				let (client, server) = tokio::io::duplex(1 << 20);
+				let svc2 = builder.clone().build(handlers::echo_module(log.clone()), stop_handle.clone());
+				let sh = stop_handle.clone();
+				tokio::spawn(async move {
+					let _ = jsonrpsee_server::serve_with_graceful_shutdown(server, svc2, sh.shutdown()).await;
+				});
+				if let Ok(ws) = jrv::memsrv::RawWs::handshake(client, "localhost", "/").await {
+					let w = ws_batch_probe(ws, &log, bytes, &format!("sentinel-deny-{bi}")).await;
+					vs.extend(judge(bytes, Cfg::Deny, "ws", &w));
+					ev.count("deny_middleware_ws_batches", 1);
+				}
+				ev.eval();
+				ev.count("deny_middleware_http_batches", 1);
+				// refused entries alone: the same response object as inside the array
+				if let (BatchWant::Array(wants), Some(arr)) = (&want, h.frames.first().and_then(|f| std::str::from_utf8(f).ok())) {
+					let mut sc = Scanner::new(arr);
+					let mut sc2 = Scanner::new(std::str::from_utf8(bytes).unwrap_or("[]"));
+					if let (Ok(rn), Ok(bn)) = (sc.document(), sc2.document()) {
+						if rn.kind == Kind::Array {
+							let replies: Vec<Reply> = rn.elems.iter().filter_map(|e| classify::parse_reply(e.raw.as_bytes()).ok()).collect();
+							for (k, wnt) in wants.iter().enumerate() {
+								let EntryWant::Refused { id, class, .. } = wnt else { continue };
+								let same_id = wants.iter().filter(|o| match o {
+									EntryWant::Call(o, _) => o.id == *id,
+									EntryWant::Invalid { id: i, .. } | EntryWant::Refused { id: i, .. } => i == id,
+									_ => false,
+								}).count();
+								if same_id != 1 {
+									continue;
+								}
+								let mut svc = builder.clone().build(handlers::echo_module(log.clone()), stop_handle.clone());
+								let (_, alone_body) = http_obs(&mut svc, &log, bn.elems[k].raw.as_bytes()).await;
+								let alone_r = classify::parse_reply(&alone_body).ok();
+								let in_batch = replies.iter().find(|r| r.id == *id).cloned();
+								ev.count("deny_middleware_alone_differentials", 1);
+								if alone_r != in_batch {
+									vs.push(Violation::new(
+										format!("alone-differs/{class}:refused-by-middleware"),
+										format!("alone {alone_r:?} vs in batch {in_batch:?}"),
+										json!({"batch": b2s(bytes), "entry": bn.elems[k].raw, "config": "Deny"}),
+									));
+								} else if in_batch.is_some() {
+									ev.nontrivial(&("deny", bytes.as_slice(), k));
+								}
+							}
+						}
+					}
+				}
+				for v in vs.iter_mut() {
+					v.witness["family"] = json!("deny-middleware");
+					v.witness["seed"] = json!(seed);
+				}
+				violations.extend(vs);
+			}
+			// subscription limit zero (WebSocket only: HTTP refuses subscriptions anyway)
+			if classes.contains(&"subscribe-call") {
+				let ws = nosubs.ws().await.expect("ws");
+				let w = ws_batch_probe(ws, &nosubs_log, bytes, &format!("sentinel-nosubs-{bi}")).await;
+				let mut vs = judge(bytes, Cfg::NoSubs, "ws", &w);
+				for v in vs.iter_mut() {
+					v.witness["family"] = json!("no-subscriptions-allowed");
+					v.witness["seed"] = json!(seed);
+				}
+				if vs.is_empty() {
+					ev.nontrivial(&("nosubs", bytes.as_slice()));
+				}
+				violations.extend(vs);
+				ev.eval();
+				ev.count("subscription_limit_zero_ws_batches", 1);
+			}
+		}
+	});
+	(ev, violations)
+}
+
 fn main() {
 	let ctx = Ctx::from_env("C02", "exploration");
 	install_panic_capture(true);
@@ -768,6 +979,15 @@ fn main() {
 	for (e, v) in results {
 		ev.merge(e);
 		violations.extend(v);
+	}
+	if ctx.replay.is_none() {
+		let n = ctx.tier.pick(1_600usize, 64_000);
+		let max_len = ctx.tier.pick(6, 8);
+		let res = run_parallel((0..16u64).collect(), |_, shard| directed_cfg_family(Rng::fork(seed, 5_000_000 + shard).next_u64(), n / 16, max_len));
+		for (e, v) in res {
+			ev.merge(e);
+			violations.extend(v);
+		}
 	}
 	for p in take_panics() {
 		if p.in_library {
